@@ -134,6 +134,7 @@ PROPS['C03'] = dict(
     level='other',
     claim='release is verified as the exact inverse of grant: _change_slot_states has whole-view postconditions (named cells marked, nothing else, lfs/mem moved by the per-node sums), lemma C03.roundtrip (grant then release restores every cell, lfs and mem), lemma C03.held-not-offered, and _unschedule_completed releases every received task once (one _active_cnt decrement and one unschedule per message)',
     note='exactly-one release message per granted task is the executor\'s half (C07); the transport between the two components is assumed; idle => initial capacity follows from the round-trip lemma by induction over the history (meta-level)',
+    bounded=[dict(name='executor-ops', cmd=['harness/run_bounded.py', 'executor-ops'], timeout=600)],
     assumptions=['A1', 'A2', 'A3', 'A4', 'A5', 'A7', 'A8', 'A9', 'A11'],
     trusted_base=['mp.Queue get/put (stdlib): every message put is returned by exactly one get'],
     explanation='inverse lemma over the two contracts + per-message release',
@@ -214,6 +215,7 @@ PROPS['C07'] = dict(
     level='other',
     claim='Popen executor: every function that can finish a task (_check_running, cancel_task, work error path) is verified against a token discipline on _tasks: the release of a task is requested and the task handed on only by the thread that removed its uid from _tasks inside _check_lock (or before the process was spawned), every token taken is consumed by exactly one release + one hand-on, execution start is announced once per accepted task; ' + _OP,
     note='_handle_task/_launch_task (script generation, subprocess spawn) by assumed contract: raises only before the process exists; watcher-thread liveness and the timeout thread are not under contract; NOOP executor not built',
+    bounded=[dict(name='executor-ops', cmd=['harness/run_bounded.py', 'executor-ops'], timeout=600)],
     assumptions=['A2', 'A4', 'A5', 'A7', 'A8', 'A9', 'A11'],
     trusted_base=['Popen._handle_task (assumed contract)', 'subprocess.Popen poll/wait', 'LaunchMethod.cancel_task'],
     explanation='ghost token set + finish log; per-operation postconditions',
